@@ -30,6 +30,11 @@ FaultScripts == {s \in [MinTTL..MaxTTL -> UNION {Opts(t) \cup FaultOpts(t) : t \
 \* 255-TTL range with a handful of answering TTLs (boundary arithmetic of the result table)
 SparseScripts == { [t \in MinTTL..MaxTTL |-> IF t = a THEN <<R(t, FALSE, 1, 7)>> ELSE IF t = b THEN <<R(t, d, 2, 100)>> ELSE <<>>] :
                      a \in {MinTTL, 128}, b \in {2, 200, MaxTTL}, d \in BOOLEAN }
+\* binding of the proof module ClipProof (TLAPS: Shape(Clip(res)) for ANY first/last TTL and ANY table satisfying ResOK):
+\* its verbatim copies of Clip / Shape agree with the originals on every reachable state, and the engine maintains its hypothesis
+CP == INSTANCE ClipDefs
+ClipCopyAgrees == CP!Clip(results) = Clip(results) /\ (CP!Shape(Clip(results)) <=> Shape(Clip(results)))
+ClipHyp == CP!ResOK(results)
 NoCancel == {0 - 1}
 CancelGrid == {0 - 1, 0, 1, 2, 3, 5, 8}
 
